@@ -75,12 +75,21 @@ pub fn show(t: &Token<'_>) -> String {
     }
 }
 
+/// `Token: PartialEq` is what a user's `assert_eq!(decoded, original)` goes through: a token equals a copy of itself (NaN payloads aside,
+/// where `f32: PartialEq` says otherwise)
+fn neq_self(t: &Token<'_>) -> bool {
+    let nan = match t { Token::F16(x) | Token::F32(x) => x.is_nan(), Token::F64(x) => x.is_nan(), _ => false };
+    let c = t.clone();
+    !nan && !(*t == c && c == *t)
+}
+
 pub fn run_enc(w: &[&str]) -> String {
     if w.len() != 1 { return "bad-op".into() }
     let owned: Option<Vec<OTok>> = if w[0] == "-" { Some(Vec::new()) } else { w[0].split(',').map(parse).collect() };
     let owned = match owned { Some(o) => o, None => return "bad-op".into() };
     let toks: Vec<Token<'_>> = owned.iter().map(OTok::borrow).collect();
     let n: usize = toks.iter().map(|t| minicbor::len(t)).sum();
+    if let Some(t) = toks.iter().find(|t| neq_self(t)) { return format!("neq-self {}", show(t)) }
     let mut e = Encoder::new(Vec::new());
     match e.tokens(toks.iter()) {
         Ok(()) => format!("{} len={}", hex(e.writer()), n),
@@ -117,7 +126,7 @@ pub fn run_dec(w: &[&str]) -> String {
     let mut tail = " end".to_string();
     for t in d.tokens() {
         match t {
-            Ok(t) => items.push(show(&t)),
+            Ok(t) => { if neq_self(&t) { return format!("neq-self {}", show(&t)) } items.push(show(&t)) }
             Err(e) => { tail = format!(" err:{}", dclass(&e)); break }
         }
     }
